@@ -308,6 +308,9 @@ def mk_history(r, kind, cont, bad=None, param=None, exc="exc"):
             for pi in (ps if c == "retarget" else ps[:1]):
                 steps.append(dict(op="edit", what="retarget", mod=pi, old=bad, to=NEW))
                 retargeted[0] = True
+        elif c == "edit_sibling":         # a healthy module of the failed design gets more content and is elaborated on its own
+            steps.append(dict(op="edit", mod=S, what="addref"))
+            add(call([S], "to_proto", "default"))
         elif c == "new_top":              # the re-created module elaborated on its own
             add(call([NEW], "to_proto", "default"))
         elif c == "unrelated":
@@ -575,6 +578,10 @@ def corpus_items():
     # a parent built around the failed module afterwards is refused untouched; re-targeted, it is elaborated as in a fresh process
     items.append(mk_history(core.rng(0, "C08", "corpus", 15), "fault", ["share_bad", "retarget", "share_bad", "retry_default"], bad=BAD, param="arrwidth"))
     items.append(mk_history(core.rng(0, "C08", "corpus", 16), "raiser", ["share_bad_elab", "retarget", "share_bad", "new_top"], bad=BAD, param=(6, True), exc="exit"))
+    # KNOWN FINDING (tools/findings/C08.json): the failed call leaves the healthy modules of its design completed by the
+    # passes before the failing one, and - unlike after a successful elaboration - still open to additions, which those
+    # passes never see.  The witness stays here so that any change of this behaviour shows.
+    items.append(mk_history(core.rng(0, "C08", "corpus", 17), "fault", ["edit_sibling"], bad=BAD, param="missing"))
     return items
 
 
